@@ -63,12 +63,16 @@ Parsed(lines) == [k \in 1..Len(lines) |-> Parse(lines[k])]
 CountValue(p) == p.addr[1] * LoMod + p.addr[2]
 
 \* ------------------------------------------------------ streaming reader
-RdInit == [cov |-> <<>>, nrec |-> 0, nhdr |-> 0, term |-> FALSE, ttyp |-> 0, entry |-> <<0, 0>>, widest |-> 0,
+RdInit == [cov |-> <<>>, nrec |-> 0, nhdr |-> 0, hdr |-> <<>>, term |-> FALSE, ttyp |-> 0, entry |-> <<0, 0>>, widest |-> 0,
            nbad |-> 0, nforeign |-> 0, ndup |-> 0, nafter |-> 0, ncount |-> 0, ev |-> "init"]
 Ev(n, name) == IF n < 3 THEN name ELSE "more"
 RdAfterTerm(rd) == [rd EXCEPT !.nafter = @ + 1, !.ev = Ev(rd.nafter, "after")]
 RdBad(rd)       == [rd EXCEPT !.nbad = @ + 1, !.ev = Ev(rd.nbad, "bad")]
-RdHeader(rd, p) == [rd EXCEPT !.nhdr = @ + 1, !.ev = "ok"]            \* header text is not memory contents
+\* header text is not memory contents; hdr collects the text of the S0 records
+RdHeader(rd, p) == [rd EXCEPT !.nhdr = @ + 1, !.hdr = @ \o p.data, !.ev = "ok"]
+\* the longest data field of a record of type t: the count byte (<= 255) also
+\* counts the address and the checksum
+MaxData(t) == 255 - AddrSize(t) - 1
 \* exp: the expected code as a sequence of 0 or 1 regions
 RdData(rd, p, exp) ==
     LET r == Reg(p.addr, p.data)
